@@ -67,27 +67,31 @@ def run(ctx):
     have_model = bool(ok_extract) and getattr(ctx, "driver_ok", False)
 
     thorough = ctx.tier == "thorough"
-    rc, so, se = ctx.harness("c12", ["-tier", ctx.tier, "-seed", ctx.seed], timeout=2400)
-    if rc != 0:
-        raise RuntimeError("harness failed: " + se[-2000:])
-    rows = [l.split("\t") for l in so.split("\n") if l]
-    n_plain = len(rows)
+    rows = []
+    runs = []   # (race?, seed, extra args)
+    for k in range(3 if thorough else 1):
+        runs.append((False, ctx.seed + 1000 * k, []))
     # the same generators under the race detector, one case at a time (attributable reports)
-    rargs = ["-tier", ctx.tier, "-seed", ctx.seed + 1, "-seq"] + (["-sse", 400, "-mp", 200] if thorough else ["-sse", 60, "-mp", 30])
-    rc, so, se = ctx.harness("c12", rargs, race=True, timeout=2400)
-    if rc != 0:
-        raise RuntimeError("race harness failed: " + se[-2000:])
-    rrows = [l.split("\t") for l in so.split("\n") if l]
-    for r in rrows:
-        r.append("race-build")
-    rows += rrows
+    runs.append((True, ctx.seed + 1, ["-seq"] + (["-sse", 800, "-mp", 400] if thorough else ["-sse", 80, "-mp", 40])))
+    n_plain = n_race = 0
+    for race, seed, extra in runs:
+        rc, so, se = ctx.harness("c12", ["-tier", ctx.tier, "-seed", seed] + extra, race=race, timeout=2400)
+        if rc != 0:
+            raise RuntimeError("harness failed: " + se[-2000:])
+        got = [l.split("\t") for l in so.split("\n") if l]
+        for r in got:
+            r.append("%s:%d:%s" % ("race" if race else "plain", seed, " ".join(str(x) for x in extra)))
+        rows += got
+        if race:
+            n_race += len(got)
+        else:
+            n_plain += len(got)
     kinds = Counter(r[0] for r in rows)
 
     def replay_cmd(r, race):
-        seed = ctx.seed + 1 if race else ctx.seed
-        extra = " -seq" + (" -sse 400 -mp 200" if thorough else " -sse 60 -mp 30") if race else ""
-        return "cd /verif/go && go build %s-tags verif -o /tmp/h_c12 ./harness/c12 && /tmp/h_c12 -tier %s -seed %d%s -only %s" % (
-            "-race " if race else "", ctx.tier, seed, extra, r[1])
+        mode, seed, extra = r[-1].split(":", 2)
+        return "cd /verif/go && go build %s-tags verif -o /tmp/h_c12 ./harness/c12 && /tmp/h_c12 -tier %s -seed %s %s -only %s" % (
+            "-race " if mode == "race" else "", ctx.tier, seed, extra, r[1])
 
     # ---------------------------------------------------------------- model side
     lines, idx = [], []
@@ -134,7 +138,7 @@ def run(ctx):
         ctx.violation(rep, no_failing_input=not failing)
 
     for i, r in enumerate(rows):
-        race = r[-1] == "race-build"
+        race = r[-1].startswith("race:")
         kind = r[0]
         if kind in ("race", "crash", "timeout"):
             races += 1
@@ -166,7 +170,7 @@ def run(ctx):
             if race:
                 branch["sse:race-build"] += 1
             if npings_between or disc != "-1" or desc == "operr":
-                nontriv.add(("sse", r[1], race))
+                nontriv.add(("sse", r[1], r[-1]))
             chk = m.get("chk")
             leanv, leanitems = (chk.split(" ", 1) + ["-"])[:2] if chk else (None, None)
             spec_fail = gov != "ok" or (leanv is not None and leanv != "ok") or hstate != "ok"
@@ -208,7 +212,7 @@ def run(ctx):
             if race:
                 branch["mp:race-build"] += 1
             if len(bl) >= 2 or disc != "-1" or shape != "1":
-                nontriv.add(("mp", r[1], race))
+                nontriv.add(("mp", r[1], r[-1]))
             chk = m.get("chk")
             leanv, leanitems = (chk.split(" ", 1) + ["-"])[:2] if chk else (None, None)
             judged = shape == "1"
@@ -256,7 +260,7 @@ def run(ctx):
         "input_distribution": dict(branch),
         "kinds": dict(kinds),
         "plain_build_cases": n_plain,
-        "race_build_cases": len(rrows),
+        "race_build_cases": n_race,
         "race_or_crash_reports": races,
         "correspondence_or_spec_failures": div,
         "model_lines_executed": len(lines),
